@@ -513,12 +513,20 @@ func isComparison(op string) bool {
 // on the path.
 func (p *Path) foldKnown() {
 	known := map[string]bool{}
+	// boolean-valued calls the path has branched on (isDigit(b), set.Contains(x)
+	// …) are known outcomes too, wherever else their value is handed on
+	knownCall := map[string]bool{}
 	for _, a := range p.Atoms {
 		if a.T.Op == "bin" && isComparison(a.T.Name) {
 			known[a.T.Key()] = a.Pos
 		}
+		if a.T.Op == "call" && a.T.Type != nil {
+			if b, ok := a.T.Type.Underlying().(*types.Basic); ok && b.Kind() == types.Bool {
+				knownCall[a.T.Key()] = a.Pos
+			}
+		}
 	}
-	if len(known) == 0 {
+	if len(known) == 0 && len(knownCall) == 0 {
 		return
 	}
 	memo := map[*Term]*Term{}
@@ -531,6 +539,13 @@ func (p *Path) foldKnown() {
 			return r
 		}
 		res := t
+		if t.Op == "call" {
+			if v, ok := knownCall[t.Key()]; ok {
+				res = constTerm(strconv.FormatBool(v))
+				memo[t] = res
+				return res
+			}
+		}
 		if (t.Op == "bin" && isComparison(t.Name)) || (t.Op == "un" && t.Name == "!") {
 			at, pol := normAtom(t)
 			if v, ok := known[at.Key()]; ok {
